@@ -177,6 +177,13 @@ func builtinProbes() []builtinProbe {
 	for _, f := range []string{"unpack2x16snorm", "unpack2x16unorm", "unpack2x16float"} {
 		add(f, sinkF("vec2<f32>", f+"(ui[0])"))
 	}
+	// the same builtin in a helper function and in the entry point (helpers written per function must not repeat)
+	for _, f := range []string{"extractBits(%s, 1u, 2u)", "insertBits(%s, 3u, 1u, 2u)", "countOneBits(%s)", "firstLeadingBit(%s)", "abs(bitcast<i32>(%s))", "u32(f32(%s))",
+		"(%s / 3u)", "(%s %% 5u)", "dot(vec2<u32>(%s), vec2<u32>(2u))", "bitcast<u32>(-bitcast<i32>(%s))"} {
+		call := func(x string) string { return fmt.Sprintf(f, x) }
+		out = append(out, builtinProbe{"helper+entry " + f, "@group(0) @binding(1) var<storage, read> ui: array<u32>;\n@group(0) @binding(3) var<storage, read_write> uo: array<u32>;\n" +
+			"fn hlp(x: u32) -> u32 { return u32(" + call("x") + "); }\n@compute @workgroup_size(1)\nfn main() {\n  uo[0] = u32(" + call("ui[0]") + ") + hlp(ui[1]);\n}\n"})
+	}
 	add("dot4U8Packed", "uo[0] = dot4U8Packed(ui[0], ui[1]);")
 	add("dot4I8Packed", "uo[0] = bitcast<u32>(dot4I8Packed(ui[0], ui[1]));")
 	add("pack4xI8", "uo[0] = pack4xI8("+iA("vec4<i32>", 0)+") ^ pack4xU8("+iA("vec4<u32>", 4)+") ^ pack4xI8Clamp("+iA("vec4<i32>", 0)+") ^ pack4xU8Clamp("+iA("vec4<u32>", 4)+");")
@@ -282,8 +289,21 @@ func cmdCBuiltins(c *ctx) {
 		}
 		u := sparse(unit)
 		defined := map[string]bool{}
+		sigSeen := map[string]bool{}
+		dup := ""
 		for _, f := range funcsOf(u) {
 			defined[f.kids[3].atom] = true
+			// the same function (name and parameter types) defined twice is a redefinition
+			sig := f.kids[3].atom + "("
+			for _, pr := range f.kids[4].kids {
+				if pr.list && len(pr.kids) > 2 {
+					sig += snodeText(pr.kids[2]) + ","
+				}
+			}
+			if sigSeen[sig] && dup == "" {
+				dup = f.kids[3].atom
+			}
+			sigSeen[sig] = true
 		}
 		for _, it := range u.kids {
 			if it.list && (it.head() == "struct" || it.head() == "typedef") && len(it.kids) > 1 {
@@ -318,6 +338,9 @@ func cmdCBuiltins(c *ctx) {
 			}
 		}
 		c.count("probes")
+		if dup != "" {
+			missing["second-definition-of-"+dup] = true
+		}
 		if len(missing) > 0 {
 			var ms []string
 			for m := range missing {
@@ -334,3 +357,18 @@ func cmdCBuiltins(c *ctx) {
 }
 
 func init() { commands["cbuiltins"] = cmdCBuiltins }
+
+// snodeText: a canonical text of an S-expression node.
+func snodeText(n *snode) string {
+	if n == nil {
+		return ""
+	}
+	if !n.list {
+		return n.atom
+	}
+	parts := make([]string, len(n.kids))
+	for i, k := range n.kids {
+		parts[i] = snodeText(k)
+	}
+	return "(" + strings.Join(parts, " ") + ")"
+}
